@@ -243,6 +243,13 @@ def cases(tier):
         for cov in (0.8, 0.95):
             yield _mk(model, L, {"a": 5, "b": 0, "c": 5, "d": 5}, "int", k, "length", cons=[[["a", "b"], ["b", "c"]]], constype="edges", cov=cov,
                       lengths=[["a", 10], ["b", 1], ["c", 1], ["d", 1]])
+    # node lengths with path-length dependent slack factors (k-MPE): the copies of the original edges must have length 0 on both sides of the comparison
+    P2 = nx.DiGraph([("a", "b")])
+    for k in (1, None):
+        for rng_ in ([[0, 12], [13, 100]], [[0, 10], [11, 100]]):
+            yield _mk("kMinPathError", P2, {"a": 10, "b": 4}, "int", k, "plf", lengths=[["a", 5], ["b", 5]], plf=[rng_, [1, 2]])
+    P3 = nx.DiGraph([("a", "b"), ("b", "c"), ("a", "c")])
+    yield _mk("kMinPathError", P3, {"a": 6, "b": 2, "c": 6}, "int", 2, "plf", lengths=[["a", 3], ["b", 4], ["c", 3]], plf=[[[0, 9], [10, 100]], [1, 2]])
     E3 = nx.DiGraph([("s", "a"), ("a", "t")])
     for model in ("MinFlowDecomp", "kLeastAbsErrors", "kMinPathError", "kFlowDecompCycles", "MinErrorFlow"):
         k = 1 if model in HAS_K else None
@@ -356,6 +363,8 @@ def run_node(case, give_missing=None, extra_ignore=()):
         if case.get("lengths"):
             del kw["subpath_constraints_coverage"]
             kw.update(subpath_constraints_coverage_length=case["cov"], length_attr="length")
+    if case.get("plf"):
+        kw.update(length_attr="length", path_length_ranges=[list(r) for r in case["plf"][0]], path_length_factors=list(case["plf"][1]))
     ign = list(case["ignore"]) + list(extra_ignore)
     if ign:
         kw["elements_to_ignore"] = ign
@@ -381,6 +390,8 @@ def run_edge(case):
             del kw["subpath_constraints_coverage"]
             kw.update(subpath_constraints_coverage_length=case["cov"], length_attr="length")
     kw["elements_to_ignore"] = ignore
+    if case.get("plf"):
+        kw.update(length_attr="length", path_length_ranges=[list(r) for r in case["plf"][0]], path_length_factors=list(case["plf"][1]))
     if case["scale"]:
         kw["error_scaling"] = {(v + IN, v + OUT): s for v, s in case["scale"]}
     if case["starts"]:
@@ -427,7 +438,7 @@ def check_rel(case):
         (" lengths=%s (cov = length coverage)" % case["lengths"]) if case.get("lengths") else "", (" edge attribute flow=%s" % case["edgeattr"]) if case.get("edgeattr") is not None else "")
     tag = {"plain": "", "missing": " with a node lacking the attribute", "ignore": " with an ignored node", "scale": " with node error scaling",
            "constraint": " with node-level constraints", "startend": " with additional starts/ends",
-           "length": " with node lengths and a length-coverage constraint", "edgeattr": " when the original edges carry an attribute named like the node attribute"}[feat]
+           "length": " with node lengths and a length-coverage constraint", "plf": " with node lengths and path-length dependent slack factors", "edgeattr": " when the original edges carry an attribute named like the node attribute"}[feat]
     rn = run_node(case)
     re_ = run_edge(case)
     if "error" in rn and "error" in re_ and rn["exc"] == "ValueError" and re_["exc"] == "ValueError":
